@@ -502,6 +502,9 @@ example : (loadAll (fun _ => [("endpoint", ""), ("timeout", "30")])
 inductive Bad : Schema → Val → Prop
   | here {fs kvs k x} : (k, x) ∈ kvs → k ∉ structKeys fs → Bad (.struct fs) (.map kvs)
   | field {fs kvs k s v} : (k, false, s) ∈ fs → lookupVal kvs k = some v → Bad s v → Bad (.struct fs) (.map kvs)
+  /-- below a field of a SQUASHED struct (`tls::bogus` under a squashed client configuration) -/
+  | squashField {fs kvs sq gs k s v} : (sq, true, .struct gs) ∈ fs → (k, false, s) ∈ gs → lookupVal kvs k = some v → Bad s v →
+      Bad (.struct fs) (.map kvs)
   | ptr {s v} : Bad s v → Bad (.ptr s) v
   | elem {s vs v} : v ∈ vs → Bad s v → Bad (.slice s) (.list vs)
   | mapVal {s kvs k v} : (k, v) ∈ kvs → Bad s v → Bad (.map s) (.map kvs)
@@ -514,6 +517,17 @@ theorem decodeFields_false {fs : List (String × Bool × Schema)} {kvs : List (S
     obtain ⟨k', sq, s'⟩ := f
     cases hm with
     | head => unfold decodeFields; simp [hl, hd]
+    | tail _ hm' => unfold decodeFields; simp [ih hm']
+
+theorem decodeFields_false_squash {fs : List (String × Bool × Schema)} {kvs : List (String × Val)} {sq : String}
+    {gs : List (String × Bool × Schema)} (hm : (sq, true, Schema.struct gs) ∈ fs) (hd : decodeFields gs kvs = false) :
+    decodeFields fs kvs = false := by
+  induction fs with
+  | nil => cases hm
+  | cons f fs ih =>
+    obtain ⟨k', q, s'⟩ := f
+    cases hm with
+    | head => unfold decodeFields; simp [hd]
     | tail _ hm' => unfold decodeFields; simp [ih hm']
 
 theorem decodeAll_false {s : Schema} {vs : List Val} {v : Val} (hm : v ∈ vs) (hd : decodeOk s v = false) : decodeAll s vs = false := by
@@ -550,6 +564,10 @@ theorem C13_strict {S : Schema} {v : Val} (h : Bad S v) : decodeOk S v = false :
     simp only [decodeOk, Bool.and_eq_false_iff]
     right
     exact decodeFields_false hm hl ih
+  | squashField hq hm hl _ ih =>
+    simp only [decodeOk, Bool.and_eq_false_iff]
+    right
+    exact decodeFields_false_squash hq (decodeFields_false hm hl ih)
   | ptr _ ih => simp only [decodeOk, ih]
   | elem hm _ ih => simp only [decodeOk]; exact decodeAll_false hm ih
   | mapVal hm _ ih => simp only [decodeOk]; exact decodeVals_false hm ih
@@ -622,6 +640,78 @@ theorem C13_builtin_keys_unique : ∀ c ∈ ConfigSchemas.components, keysUnique
 open OtelVerif.Gen in
 /-- no built-in configuration has a map keyed by an opaque string (the JSON-map-key leak of C14 is not reachable) -/
 theorem C13_builtin_no_opaque_map_key : ∀ c ∈ ConfigSchemas.components, noOpaqueKey c.2.1 = true := by decide
+
+/-! ### strictness on the regenerated key-space schemas (`decodeV` / `decodeC`) -/
+
+/-- the written configuration contains, at some depth (through struct fields and optionals; squashed structs are inlined
+in `KS`), a key that the struct at that position does not accept -/
+inductive BadK : KS → Val → Prop
+  | here {fs kvs k x} : (k, x) ∈ kvs → (fs.map (·.1)).contains k = false → BadK (.struct fs) (.map kvs)
+  | field {fs kvs k s v} : (k, s) ∈ fs → lookupVal kvs k = some v → BadK s v → BadK (.struct fs) (.map kvs)
+  | ptr {s v} : BadK s v → BadK (.ptr s) v
+
+theorem decodeFs_none {fs : List (String × KS)} {kvs : List (String × Val)} {k : String} {s : KS} {v : Val}
+    (hm : (k, s) ∈ fs) (hl : lookupVal kvs k = some v) (hd : ∀ d, decodeV s d v = none) :
+    ∀ dfs, decodeFs fs dfs kvs = none := by
+  induction fs with
+  | nil => cases hm
+  | cons f fs ih =>
+    obtain ⟨k', s'⟩ := f
+    intro dfs
+    cases dfs with
+    | nil => simp [decodeFs]
+    | cons dh dt =>
+      obtain ⟨kd, dv⟩ := dh
+      cases hm with
+      | head => simp [decodeFs, hl, hd dv]
+      | tail _ hm' =>
+        simp only [decodeFs]
+        cases lookupVal kvs k' with
+        | none => simp [ih hm' dt]
+        | some v' => cases decodeV s' dv v' <;> simp [ih hm' dt]
+
+/-- **Strictness on the regenerated schemas**: an unknown key at any depth makes the generic decode fail, for every default -/
+theorem C13_strict_ks {S : KS} {v : Val} (h : BadK S v) : ∀ d, decodeV S d v = none := by
+  induction h with
+  | here hm hk =>
+    rename_i fs kvs k x
+    intro d
+    cases d with
+    | struct dfs =>
+      simp only [decodeV]
+      have : kvs.all (fun p => (fs.map (·.1)).contains p.1) = false := by
+        rw [List.all_eq_false]; exact ⟨(k, x), hm, by rw [hk]; simp⟩
+      rw [if_neg (by rw [this]; simp)]
+    | atom a => simp [decodeV]
+    | nilp => simp [decodeV]
+  | field hm hl _ ih =>
+    rename_i fs kvs k s v
+    intro d
+    cases d with
+    | struct dfs =>
+      simp only [decodeV]
+      split
+      · simp [decodeFs_none hm hl ih dfs]
+      · rfl
+    | atom a => simp [decodeV]
+    | nilp => simp [decodeV]
+  | ptr _ ih =>
+    intro d
+    cases d <;> simp only [decodeV] <;> exact ih _
+
+/-- … and so does every component's own `Unmarshal` (fix-ups around the generic decode), on every built-in schema -/
+theorem C13_strict_builtin (hooks : List Hook) (S : KS) (d : TV) (v : Val) (h : BadK S v) : decodeC hooks S d v = none := by
+  simp [decodeC, C13_strict_ks h]
+
+/-- non-vacuity: `tls::bogus` below an optional section -/
+example : BadK (.struct [("endpoint", .scalar), ("tls", .ptr (.struct [("insecure", .scalar)]))])
+    (.map [("tls", .map [("bogus", .scalar 1)])]) :=
+  .field (k := "tls") (s := .ptr (.struct [("insecure", .scalar)])) (v := .map [("bogus", .scalar 1)]) (by simp) rfl
+    (.ptr (.here (fs := [("insecure", .scalar)]) (kvs := [("bogus", .scalar 1)]) (k := "bogus") (x := .scalar 1) (by simp) (by decide)))
+
+/-- … and evaluated on the regenerated OTLP/HTTP exporter schema and default (`tls` sits in a squash-inlined client configuration) -/
+example : decodeV Gen.ConfigSchemas.exporters_otlphttp_schema Gen.ConfigSchemas.exporters_otlphttp_default
+    (.map [("tls", .map [("bogus", .scalar 1)])]) = none := by decide
 
 /-! ### custom `Unmarshal` methods: inside the theorems -/
 
@@ -705,5 +795,105 @@ written leaves it may normalise (`*_url_path`) -/
 example : (componentHooks Gen.ConfigSchemas.customPositions "receivers/otlp").map (fun hs => hs.flatMap Hook.targets)
     = some [["protocols", "grpc"], ["protocols", "http"], ["protocols", "http", "traces_url_path"],
             ["protocols", "http", "metrics_url_path"], ["protocols", "http", "logs_url_path"]] := by decide
+
+/-! ### every reported reference / shape error names a real offending entry (remaining classes) -/
+
+theorem firstDup_some {seen xs : List Id} {r : Id} (h : firstDup seen xs = some r) : r ∈ xs := by
+  induction xs generalizing seen with
+  | nil => simp [firstDup] at h
+  | cons x xs ih =>
+    simp only [firstDup] at h
+    split at h
+    · simp at h; subst h; exact List.mem_cons_self ..
+    · exact List.mem_cons_of_mem _ (ih h)
+
+/-- a reported duplicate processor names a pipeline that really lists that processor more than once -/
+theorem C13_shape_names_duplicate (c : Top) (pid : Nat) (r : Id) (h : RErr.dupProcessor pid r ∈ shapeErrs c) :
+    ∃ p, (pid, p) ∈ c.pipelines ∧ r ∈ p.procs ∧ ¬ p.procs.Nodup := by
+  unfold shapeErrs at h
+  rw [List.mem_append] at h
+  rcases h with h | h
+  · split at h <;> simp at h
+  · obtain ⟨⟨pid', p⟩, hm, hp⟩ := List.mem_filterMap.mp h
+    simp only at hp
+    unfold pipeErr at hp
+    split at hp
+    · simp at hp
+    · split at hp
+      · simp at hp
+      · cases hd : firstDup [] p.procs with
+        | none => simp [hd] at hp
+        | some r' =>
+          simp only [hd, Option.map_some, Option.some.injEq, RErr.dupProcessor.injEq] at hp
+          obtain ⟨rfl, rfl⟩ := hp
+          refine ⟨p, hm, firstDup_some hd, ?_⟩
+          intro hn
+          have := (firstDup_none [] p.procs).mpr ⟨hn, by simp⟩
+          simp [hd] at this
+
+/-- a reported dangling service extension is listed under `service::extensions` and is not configured;
+a reported ambiguous id is a connector id that is also an exporter (resp. receiver) id -/
+theorem C13_refs_names_extension_and_ambiguous (c : Top) (r : Id) :
+    (RErr.danglingExtension r ∈ rootErrs c → r ∈ c.svcExtensions ∧ configured c.extensions r = false) ∧
+    (RErr.ambiguousExporter r ∈ rootErrs c → r ∈ c.connectors ∧ r ∈ c.exporters) ∧
+    (RErr.ambiguousReceiver r ∈ rootErrs c → r ∈ c.connectors ∧ r ∈ c.receivers) := by
+  have conn : ∀ e conn, connErr c conn = some e →
+      (e = .ambiguousExporter r → conn = r ∧ r ∈ c.exporters) ∧ (e = .ambiguousReceiver r → conn = r ∧ r ∈ c.receivers) ∧
+      e ≠ .danglingExtension r := by
+    intro e conn h
+    unfold connErr at h
+    split at h
+    · rename_i h1
+      simp at h; subst h
+      refine ⟨fun he => ?_, fun he => by simp at he, by simp⟩
+      simp at he; subst he; exact ⟨rfl, by simpa using h1⟩
+    · split at h
+      · rename_i h2
+        simp at h; subst h
+        refine ⟨fun he => by simp at he, fun he => ?_, by simp⟩
+        simp at he; subst he; exact ⟨rfl, by simpa using h2⟩
+      · simp at h
+  have pipeNot : ∀ pid p e, pipeRefErr c pid p = some e →
+      e ≠ .danglingExtension r ∧ e ≠ .ambiguousExporter r ∧ e ≠ .ambiguousReceiver r := by
+    intro pid p e h
+    unfold pipeRefErr at h
+    split at h
+    · simp at h; subst h; simp
+    · split at h
+      · simp at h; subst h; simp
+      · split at h
+        · simp at h; subst h; simp
+        · simp at h
+  have key : ∀ e, e ∈ rootErrs c →
+      (e = .danglingExtension r → r ∈ c.svcExtensions ∧ configured c.extensions r = false) ∧
+      (e = .ambiguousExporter r → r ∈ c.connectors ∧ r ∈ c.exporters) ∧
+      (e = .ambiguousReceiver r → r ∈ c.connectors ∧ r ∈ c.receivers) := by
+    intro e he
+    unfold rootErrs at he
+    split at he
+    · simp at he; subst he; simp
+    · split at he
+      · simp at he; subst he; simp
+      · split at he
+        · simp at he; subst he; simp
+        · split at he
+          · rename_i e' es hce
+            have : e ∈ c.connectors.filterMap (connErr c) := by rw [hce]; exact he
+            obtain ⟨cn, hcm, hcc⟩ := List.mem_filterMap.mp this
+            obtain ⟨h1, h2, h3⟩ := conn e cn hcc
+            refine ⟨fun h => absurd h h3, fun h => ?_, fun h => ?_⟩
+            · obtain ⟨rfl, hx⟩ := h1 h; exact ⟨hcm, hx⟩
+            · obtain ⟨rfl, hx⟩ := h2 h; exact ⟨hcm, hx⟩
+          · split at he
+            · rename_i r' hf
+              simp at he; subst he
+              refine ⟨fun h => ?_, fun h => by simp at h, fun h => by simp at h⟩
+              simp at h; subst h
+              have := List.find?_some hf
+              exact ⟨List.mem_of_find?_eq_some hf, by simpa using this⟩
+            · obtain ⟨⟨pid, p⟩, _, hp⟩ := List.mem_filterMap.mp he
+              obtain ⟨n1, n2, n3⟩ := pipeNot pid p e hp
+              exact ⟨fun h => absurd h n1, fun h => absurd h n2, fun h => absurd h n3⟩
+  exact ⟨fun h => (key _ h).1 rfl, fun h => (key _ h).2.1 rfl, fun h => (key _ h).2.2 rfl⟩
 
 end OtelVerif.C13
